@@ -153,8 +153,15 @@ class G:
 
     def functor(self, p, info, max_img=2):
         """A random functor defined on the objects and plain boxes of info, applied to p."""
+        obs, ars = self.functor_tables([info], max_img)
+        return [FUNCTOR, obs, ars, p]
+
+    def functor_tables(self, infos, max_img=2):
+        """Object and box tables of a random functor defined on everything in infos."""
         rng = self.rng
-        dom, cod, boxes, offs = info
+        dom, cod, boxes, offs = [], [], [], []
+        for (d0, c0, b0, o0) in infos:
+            dom, cod, boxes = dom + d0, cod + c0, boxes + b0
         names = sorted({o[0] for t in [dom, cod] + [b[2] for b in boxes] + [b[3] for b in boxes] for o in t})
         saved = self.rigid
         obs = []
@@ -191,7 +198,7 @@ class G:
                            [BOX, [KBOX, 40 + len(ars), mid, icod, 0, []]]]
             ars.append([base, img])
         self.rigid = saved
-        return [FUNCTOR, obs, ars, p]
+        return obs, ars
 
     # ---------------------------------------------------------------- malformed
     def malformed(self):
